@@ -1242,8 +1242,17 @@ fn wait_variant_case(m: &mut Model, rep: &mut Report, r: &mut Rng) {
                 continue;
             }
             75..=84 => {
+                let before = real.image();
                 let n = real.lm.cleanup_expired_with_wait_cleanup(&g);
                 rep.hit(if n > 0 { "tg.cleanw.removed" } else { "tg.cleanw.none" });
+                // oracle on the real objects, BEFORE the comparison with the model (a disagreement ends the case)
+                let after = real.image();
+                if let Some(v) = view(&g) {
+                    let cycles: Vec<(Vec<u64>, Option<u64>)> = g.detect_cycles().into_iter().map(|c| (c, None)).collect();
+                    let mut t2 = trace.clone();
+                    t2.push(format!("cleanw {now}"));
+                    sweep_oracle(rep, &before, &after, now, &v, &cycles, &|| json!({"stream": stream, "timeout_ticks": to, "trace": t2}));
+                }
                 (n.to_string(), format!("cleanw {now}"))
             }
             _ => {
@@ -1262,6 +1271,251 @@ fn wait_variant_case(m: &mut Model, rep: &mut Report, r: &mut Rng) {
     }
     let key = trace.join(";");
     rep.case(stream, if nontrivial { Some(&key) } else { None });
+}
+
+// ------------------------------------------------------------------ the expired-lock sweep and the wait-for graph
+//
+// "When a transaction times out, none of its locks remain and it no longer appears as waiter or holder in the
+// wait-for graph": the time-out of a lock is realised by `cleanup_expired_with_wait_cleanup` (run by
+// `cleanup_timeouts` and `recover`).  The oracle is stated on the real objects only: every transaction that owned
+// an expired row before the sweep and owns no row of the lock table after it is absent from the wait-for graph (both
+// indexes, wait-start, priority), and no reported cycle passes through such a transaction.  The grant path matters:
+// a take-over of a lapsed key overwrites the row but leaves the key in the old owner's `tx_locks` entry, so the
+// per-transaction index is NOT a faithful "still holds something" test.
+
+/// returns the number of violations it filed
+fn sweep_oracle(rep: &mut Report, before: &Image, after: &Image, now: u64, v: &GraphView, cycles: &[(Vec<u64>, Option<u64>)], input: &dyn Fn() -> serde_json::Value) -> u64 {
+    let swept: BTreeSet<u64> = before.locks.iter().filter(|l| Image::expired(l, now)).map(|l| l.tx).collect();
+    let holds = |tx: u64| after.locks.iter().any(|l| l.tx == tx);
+    let appears = |tx: u64| {
+        v.edges.iter().any(|(k, vs)| *k == tx || vs.contains(&tx)) || v.reverse.iter().any(|(k, vs)| *k == tx || vs.contains(&tx))
+            || v.ws.iter().any(|x| x.0 == tx) || v.pr.iter().any(|x| x.0 == tx)
+    };
+    let mut bad = 0;
+    for &tx in &swept {
+        if holds(tx) {
+            rep.hit("tg.sweep.swept_tx_keeps_a_live_lock");
+            continue;
+        }
+        rep.hit("tg.sweep.swept_tx_holds_nothing");
+        let taken_over = before.txl.iter().any(|(t, ks)| *t == tx && ks.iter().any(|k| before.locks.iter().any(|l| l.k == *k && l.tx != tx)));
+        if taken_over { rep.hit("tg.sweep.swept_tx_had_a_key_taken_over"); }
+        if appears(tx) {
+            bad += 1;
+            let mut i = input();
+            i["swept_tx"] = json!(tx);
+            i["locks_after"] = json!(after.show());
+            i["graph_after"] = json!(graph_img(v, 0));
+            rep.violation("tensor_chain.deadlock/transaction_without_locks_in_wait_graph",
+                "after the expired-lock sweep a swept transaction holds no lock in the lock table but still appears in the wait-for graph", i);
+        }
+    }
+    for (c, victim) in cycles {
+        if let Some(&tx) = c.iter().find(|t| swept.contains(t) && !holds(**t)) {
+            bad += 1;
+            let mut i = input();
+            i["swept_tx"] = json!(tx);
+            i["cycle"] = json!(c);
+            i["victim"] = json!(victim);
+            i["locks_after"] = json!(after.show());
+            rep.violation("tensor_chain.deadlock/phantom_cycle",
+                "after the expired-lock sweep the detector reports a cycle through a swept transaction that holds no lock", i);
+        }
+    }
+    // NOT part of the oracle (counted): a holder of the graph that owns no row and was not swept — what a take-over
+    // of ALL lapsed keys of a transaction leaves until its waiters retry or end
+    let holders: BTreeSet<u64> = v.edges.iter().flat_map(|(_, vs)| vs.iter().copied()).collect();
+    if holders.iter().any(|h| !holds(*h) && !swept.contains(h)) { rep.hit("tg.sweep.unswept_lockless_holder_in_graph"); }
+    bad
+}
+
+#[derive(Clone, Debug)]
+enum SwOp {
+    Lock(u64, Vec<u64>),
+    Adv(u64),
+    Sweep,
+    Restore,
+}
+fn sw_text(op: &SwOp) -> String {
+    match op {
+        SwOp::Lock(tx, ks) => format!("lockw tx={tx} keys={}", commas(ks)),
+        SwOp::Adv(d) => format!("advance {d}ms"),
+        SwOp::Sweep => "cleanup_expired_with_wait_cleanup".into(),
+        SwOp::Restore => "serialize+restore".into(),
+    }
+}
+
+/// One history of try_lock_with_wait_tracking / clock advance / sweep / serialize-restore on a real LockManager and
+/// the graph of a real DeadlockDetector under the frozen millisecond clock; model compared after every op until the
+/// first disagreement, the oracle runs after every sweep regardless.  Returns (correspondence held, violations filed).
+fn run_sweep_case(m: &mut Model, rep: &mut Report, stream: &str, to: u64, ops: &[SwOp], record: bool) -> (bool, u64) {
+    let mut real = RealTable::new_hooked(to);
+    let det = DeadlockDetector::new(DeadlockDetectorConfig::default());
+    let g = det.graph();
+    if m.ask(&format!("reset {to} 0")) != "ok" { rep.disagree(stream, json!({}), "ok", "reset refused"); return (false, 0); }
+    let mut corr = true;
+    let mut bad = 0u64;
+    let mut trace: Vec<String> = Vec::new();
+    let mut nontrivial = false;
+    let texts: Vec<String> = ops.iter().map(sw_text).collect();
+    for op in ops {
+        let now = real.vnow;
+        let (imp, line, with_graph) = match op {
+            SwOp::Adv(d) => { real.advance(*d); if record { rep.hit("tg.sweep.advance"); } continue; }
+            SwOp::Lock(tx, ks) => {
+                let keys: Vec<String> = ks.iter().map(|k| kname(*k)).collect();
+                let before = real.image();
+                let res = real.lm.try_lock_with_wait_tracking(*tx, &keys, g, None);
+                let line = format!("lockw {now} {now} {tx} {} -", commas(ks));
+                match res {
+                    Ok(h) => {
+                        let hm = real.h_to_model(h);
+                        if record {
+                            rep.hit("tg.sweep.lock.grant");
+                            if ks.len() >= 2 { rep.hit("tg.sweep.lock.grant_multi_key"); }
+                            if before.locks.iter().any(|l| ks.contains(&l.k) && l.tx != *tx) {
+                                rep.hit("tg.sweep.lock.takeover_of_lapsed_key");
+                                // partial: the old owner keeps another lapsed, unswept row
+                                if before.locks.iter().any(|l| ks.contains(&l.k) && l.tx != *tx && before.locks.iter().any(|o| o.tx == l.tx && !ks.contains(&o.k) && Image::expired(o, now))) {
+                                    rep.hit("tg.sweep.lock.partial_takeover");
+                                }
+                            }
+                        }
+                        (format!("ok {hm}"), line, true)
+                    }
+                    Err(w) => {
+                        if record { rep.hit("tg.sweep.lock.conflict"); }
+                        let ck: Vec<u64> = w.conflicting_keys.iter().map(|k| kid(k)).collect();
+                        (format!("conflict {}", commas(&ck)), line, true)
+                    }
+                }
+            }
+            SwOp::Restore => {
+                if let Err(e) = real.serialize_restore() { rep.disagree(stream, json!({"ops": texts}), &e, ""); return (false, bad); }
+                if record { rep.hit("tg.sweep.serialize_restore"); }
+                ("ok".to_string(), "sr".to_string(), false)
+            }
+            SwOp::Sweep => {
+                let before = real.image();
+                let n = real.lm.cleanup_expired_with_wait_cleanup(g);
+                if record { rep.hit(if n > 0 { "tg.sweep.removed" } else { "tg.sweep.none" }); }
+                if n > 0 { nontrivial = true; }
+                let after = real.image();
+                let Some(v) = view(g) else { rep.disagree(stream, json!({"ops": texts}), "unparseable Debug", ""); return (false, bad); };
+                let cycles: Vec<(Vec<u64>, Option<u64>)> = det.detect().into_iter().map(|d| (d.cycle, Some(d.victim_tx_id))).collect();
+                let upto = trace.len() + 1;
+                bad += sweep_oracle(rep, &before, &after, now, &v, &cycles, &|| json!({"stream": stream, "timeout_ms": to, "ops": texts, "violated_after_sweep_no": upto}));
+                (n.to_string(), format!("cleanw {now}"), true)
+            }
+        };
+        trace.push(line.clone());
+        if !corr { continue; }
+        let img = real.image();
+        let Some(v) = view(g) else { rep.disagree(stream, json!({"ops": texts}), "unparseable Debug", ""); return (false, bad); };
+        let imp_line = if with_graph { format!("{imp} | {} | {}", img.show(), graph_img(&v, 0)) } else { format!("{imp} | {}", img.show()) };
+        let mo = m.ask(&line);
+        if record {
+            if !rep.compare(stream, || json!({"timeout_ms": to, "ops": texts, "trace": trace}), &imp_line, &mo) { corr = false; }
+        } else if imp_line != mo {
+            corr = false;
+        }
+    }
+    if record {
+        let key = format!("{to}|{}", texts.join(";"));
+        rep.case(stream, if nontrivial { Some(&key) } else { None });
+    }
+    (corr, bad)
+}
+
+/// The minimal history in which the sweep has to clear a transaction whose per-transaction index is not empty
+/// (A holds two keys, C refused on one and waiting for A, A's locks lapse unswept, B takes ONE of them over, sweep),
+/// and its neighbours: no take-over, take-over of the other key, of all keys, three keys, A also a waiter (so that
+/// a stale A closes a cycle), the same through serialize/restore, two sweeps, a sweep at the exact expiry boundary.
+fn directed_sweep_cases() -> Vec<(&'static str, u64, Vec<SwOp>)> {
+    use SwOp::*;
+    vec![
+        ("partial_takeover", 3, vec![Lock(1, vec![0, 1]), Lock(3, vec![1]), Adv(4), Lock(2, vec![0]), Sweep]),
+        ("partial_takeover_waiter_on_taken_key", 3, vec![Lock(1, vec![0, 1]), Lock(3, vec![0]), Adv(4), Lock(2, vec![0]), Sweep]),
+        ("partial_takeover_other_key", 3, vec![Lock(1, vec![0, 1]), Lock(3, vec![1]), Adv(4), Lock(2, vec![1]), Sweep]),
+        ("no_takeover", 3, vec![Lock(1, vec![0, 1]), Lock(3, vec![1]), Adv(4), Sweep]),
+        ("full_takeover", 3, vec![Lock(1, vec![0, 1]), Lock(3, vec![1]), Adv(4), Lock(2, vec![0, 1]), Sweep]),
+        ("full_takeover_by_two", 3, vec![Lock(1, vec![0, 1]), Lock(3, vec![1]), Adv(4), Lock(2, vec![0]), Lock(4, vec![1]), Sweep]),
+        ("three_keys_one_taken", 3, vec![Lock(1, vec![0, 1, 2]), Lock(3, vec![2]), Adv(4), Lock(2, vec![1]), Sweep]),
+        ("three_keys_two_taken", 3, vec![Lock(1, vec![0, 1, 2]), Lock(3, vec![2, 0]), Adv(4), Lock(2, vec![0, 1]), Sweep]),
+        ("two_grants_one_taken", 3, vec![Lock(1, vec![0]), Lock(1, vec![1]), Lock(3, vec![1]), Adv(4), Lock(2, vec![0]), Sweep]),
+        ("holder_is_also_waiter_cycle", 3, vec![Lock(1, vec![0, 1]), Adv(2), Lock(3, vec![2]), Lock(1, vec![2]), Lock(3, vec![1]), Adv(2), Lock(2, vec![0]), Sweep]),
+        ("holder_is_also_waiter_no_takeover", 3, vec![Lock(1, vec![0, 1]), Adv(2), Lock(3, vec![2]), Lock(1, vec![2]), Lock(3, vec![1]), Adv(2), Sweep]),
+        ("partial_takeover_restored", 3, vec![Lock(1, vec![0, 1]), Lock(3, vec![1]), Adv(4), Lock(2, vec![0]), Restore, Sweep]),
+        ("partial_takeover_two_sweeps", 3, vec![Lock(1, vec![0, 1]), Lock(3, vec![1]), Adv(4), Lock(2, vec![0]), Sweep, Adv(4), Sweep]),
+        ("boundary_elapsed_eq_timeout", 3, vec![Lock(1, vec![0, 1]), Lock(3, vec![1]), Adv(3), Lock(2, vec![0]), Sweep, Adv(1), Lock(2, vec![0]), Sweep]),
+        ("partial_expiry_live_key_kept", 3, vec![Lock(1, vec![0]), Adv(2), Lock(1, vec![1]), Lock(3, vec![1]), Adv(2), Sweep]),
+        ("timeout_zero", 0, vec![Lock(1, vec![0, 1]), Lock(3, vec![1]), Adv(1), Lock(2, vec![0]), Sweep]),
+    ]
+}
+
+/// random histories of the same SHAPE: rounds of {a multi-key grant, refused prepares that record waits, the clock
+/// moving past (or exactly to) the expiry, single-key prepares that take over some of the lapsed keys, sweep}
+fn gen_sweep_ops(r: &mut Rng) -> (u64, Vec<SwOp>) {
+    let to = *r.pick(&[0u64, 1, 2, 3, 3]);
+    let ntx = 3 + r.below(3);
+    let nkeys = 2 + r.below(3);
+    let subset = |r: &mut Rng, min: u64, max: u64| -> Vec<u64> {
+        let mut all: Vec<u64> = (0..nkeys).collect();
+        r.shuffle(&mut all);
+        let n = (min + r.below(max - min + 1)).min(nkeys) as usize;
+        all.truncate(n.max(1));
+        all
+    };
+    let mut ops = Vec::new();
+    for _ in 0..1 + r.below(3) {
+        // a holder of several keys
+        ops.push(SwOp::Lock(1 + r.below(ntx), subset(r, 2, 3)));
+        if r.chance(1, 3) { ops.push(SwOp::Adv(r.below(3))); }
+        // prepares of others: refused ones record waits; a lock of the holder-to-be on a foreign key makes it a waiter
+        for _ in 0..1 + r.below(3) {
+            ops.push(SwOp::Lock(1 + r.below(ntx), subset(r, 1, 2)));
+        }
+        // the locks lapse (sometimes only to the boundary, sometimes not at all)
+        ops.push(SwOp::Adv(match r.below(6) { 0 => to, 1 => r.below(to + 1), _ => to + 1 + r.below(2) }));
+        // partial take-over before the sweep
+        for _ in 0..r.below(3) {
+            ops.push(SwOp::Lock(1 + r.below(ntx), subset(r, 1, 1)));
+        }
+        if r.chance(1, 6) { ops.push(SwOp::Restore); }
+        ops.push(SwOp::Sweep);
+        if r.chance(1, 4) { ops.push(SwOp::Lock(1 + r.below(ntx), subset(r, 1, 2))); }
+    }
+    (to, ops)
+}
+
+fn sweep_streams(m: &mut Model, rep: &mut Report, root: &Rng, scale: u64) {
+    for (name, to, ops) in directed_sweep_cases() {
+        let (corr, bad) = run_sweep_case(m, rep, "table+graph.sweep.directed", to, &ops, true);
+        rep.hit(&format!("tg.sweep.directed.{name}.{}", if bad > 0 { "violated" } else if corr { "ok" } else { "disagreed" }));
+    }
+    let mut r = root.fork("table+graph.sweep");
+    let mut shrunk = false;
+    let mut failed = 0;
+    for _ in 0..1500 * scale {
+        let (to, ops) = gen_sweep_ops(&mut r);
+        let nv = rep.violations.len();
+        let (corr, bad) = run_sweep_case(m, rep, "table+graph.sweep", to, &ops, true);
+        if bad > 0 && !shrunk {
+            shrunk = true;
+            let mut scratch = Report::new("shrink");
+            let small = shrink_list(&ops, &mut |cand: &[SwOp]| run_sweep_case(m, &mut scratch, "shrink", to, cand, false).1 > 0);
+            let small_text: Vec<String> = small.iter().map(sw_text).collect();
+            rep.sample(json!({"stream": "table+graph.sweep", "shrunk_violation": small_text, "timeout_ms": to}));
+            // the failing input kept for the replay is the shrunk history
+            for v in rep.violations.iter_mut().skip(nv) {
+                v["input"]["shrunk_ops"] = json!(small_text);
+            }
+        }
+        if !corr || bad > 0 { failed += 1; if failed >= 40 { break; } }
+        if rep.samples.len() < 10 && r.chance(1, 400) {
+            rep.sample(json!({"stream": "table+graph.sweep", "timeout_ms": to, "ops": ops.iter().map(sw_text).collect::<Vec<_>>()}));
+        }
+    }
 }
 
 /// The PRE-FIX end-of-transaction sequence (handle loop only) replayed on the real LockManager +
@@ -2907,6 +3161,10 @@ fn main() {
         "threads.prepare_vs_end.k16.prepare.refused", "threads.prepare_vs_end.k4.prepare.refused", "threads.prepare_vs_end.k1.prepare.refused",
         "threads.prepare_vs_end.k1.prepare.granted", "threads.prepare_vs_end.lm.k16.prepare.refused", "threads.prepare_vs_end.lm.k1.prepare.refused",
         "threads.prepare_vs_end.lm.k1.prepare.granted",
+        "tg.sweep.lock.grant_multi_key", "tg.sweep.lock.conflict", "tg.sweep.lock.takeover_of_lapsed_key", "tg.sweep.lock.partial_takeover",
+        "tg.sweep.removed", "tg.sweep.none", "tg.sweep.swept_tx_holds_nothing", "tg.sweep.swept_tx_keeps_a_live_lock",
+        "tg.sweep.swept_tx_had_a_key_taken_over", "tg.sweep.serialize_restore", "tg.sweep.directed.partial_takeover.ok",
+        "tg.sweep.directed.holder_is_also_waiter_cycle.ok",
         "graph2.clear", "graph2.stale.removed", "graph2.stale.none", "graph2.stale.boundary_elapsed_eq_ttl_kept", "graph2.wcc.true", "graph2.wcc.false",
     ].iter().map(|s| s.to_string()).collect();
     let mut m = Model::spawn(&args.driver);
@@ -2942,6 +3200,10 @@ fn main() {
     }
     let t_start = std::time::Instant::now();
     let lap = |name: &str| eprintln!("[corr_locks] {name} done at {:.1}s", t_start.elapsed().as_secs_f64());
+    // ---- stream 00 (directed first, then random of the same shape): the expired-lock sweep against the wait-for graph
+    //      after a take-over of some of the lapsed keys, frozen clock; oracle on the real objects after every sweep
+    sweep_streams(&mut m, &mut rep, &root, scale);
+    lap("table+graph.sweep");
     // ---- stream 0 (directed regression, runs first): one thread committing 16-shard transactions over a 20 000-entry
     //      lock table (commit holds pending.write() across 16 long lock-table sections) against one sweeping thread —
     //      the shortest history in which the sweep's lock order is the only thing preventing a deadlock
